@@ -72,3 +72,38 @@ Lemma conc_return_after_reload :
     verifies t (published f2_cfg (g_st g)) = false /\
     verifies t (published f2_cfg (g_st (crun fx_all f2_cfg (firstn 3 sched) (cinit (ex_st ex_A) [ex_call "alice" 1000000000000])))) = true.
 Proof. eexists. cbv zeta. split; [vm_compute; reflexivity|]. vm_compute. repeat split. Qed.
+
+(* ------------------------------------------------------------------ the fine machine (C16/ConcFine.v) *)
+From HV Require Import C16.ConcFine.
+
+(** two calls, one reload to B, one JWKS request.  Call 0 is inside its Hash() section when the reload wants
+    the lock: the reload waits (its step changes nothing); once call 0 has released the lock the reload takes
+    it, and call 1's RLock and the JWKS request wait while it assigns the three fields one by one; call 0
+    signs after the reload (with B's key), call 1 as well; the JWKS answer is B's set *)
+Definition fx_sched : list fev :=
+  [FEx 0; FEx 0;            (* call 0: RLock, jwk := s.jwk *)
+   FRl 0;                   (* reload: parse ok, Lock refused (a reader holds the mutex) *)
+   FEx 0;                   (* call 0: RUnlock, cache key (under A) *)
+   FRl 0; FRl 0;            (* reload: Lock, s.jwk = *)
+   FEx 1; FJw 0;            (* call 1 and the JWKS request: RLock refused (the writer holds the mutex) *)
+   FEx 0;                   (* call 0: cache lookup (miss) *)
+   FEx 0;                   (* call 0: RLock refused *)
+   FRl 0; FRl 0; FRl 0;     (* reload: s.key =, s.pubKeys =, Unlock *)
+   FEx 0; FEx 0; FEx 0; FEx 0; FEx 0; FEx 0;   (* call 0: RLock, reads, RUnlock+sign, Set, return *)
+   FJw 0; FJw 0; FJw 0;
+   FEx 1; FEx 1; FEx 1; FEx 1; FEx 1].         (* call 1: Hash() section, lookup: hit *)
+
+Lemma fine_nonvacuous :
+  let g0 := finit (ex_st ex_A) [ex_call "alice" 1000000000000; ex_call "alice" 1001000000000] [ex_B] 1 in
+  let at_ n := frun fx_all f2_cfg (firstn n fx_sched) g0 in
+  exists t,
+    map et_pc (f_exs (at_ 27)) = [EDone (Ok t); EDone (Ok t)] /\ t_kid t = "key-b" /\
+    map rt_pc (f_rls (at_ 3)) = [RInit] /\ writers (at_ 5) = true /\
+    map et_pc (f_exs (at_ 8)) = [EKeyed (key_of fx_all f2_cfg (ex_st ex_A) (q_of "alice")); EInit] /\ f_jws (at_ 8) = [JInit] /\
+    (* torn in the middle of the write section, but nobody can look *)
+    s_jwk (f_sh (at_ 8)) = s_jwk (ex_st ex_B) /\ s_key (f_sh (at_ 8)) = s_key (ex_st ex_A) /\
+    f_sh (at_ 13) = ex_st ex_B /\ writers (at_ 13) = false /\
+    f_jwks (at_ 27) = [[spec_jwk (f2_entry 8 "key-b")]] /\
+    tr_sched fx_all f2_cfg g0 fx_sched =
+      [SThread 0; SReload ex_B; SThread 0; SThread 0; SThread 0; SThread 0; SJwks; SThread 1; SThread 1; SThread 1].
+Proof. cbv zeta. eexists. vm_compute. repeat split. Qed.
